@@ -71,6 +71,9 @@ func (s String) Cut(st funcGen.Stack[Value]) (Value, error) {
 			if n <= 0 {
 				n = math.MaxInt
 			}
+			if len(str) == 0 {
+				return String(""), nil
+			}
 			for i := 0; i < int(n); i++ {
 				r, l := utf8.DecodeRuneInString(str)
 				res.WriteRune(r)
